@@ -538,9 +538,31 @@ let op_fbdrender (args : str list) : str list =
        | _ -> ["notparsed"])
   | _ -> ["bad-args"]
 
+(* renderer model for a whole library: "<hex text>" -> the significant tokens the renderer model writes for the library the
+   parser model reads from the text (in every unit the variables first, then the edge inputs, as the library holds them) *)
+let op_lib2render (args : str list) : str list =
+  match args with
+  | [h] ->
+      (match parse_lib2_text (text_of_hex h) with
+       | O4Parsed es ->
+           let reorder = function
+             | ETypes l -> ETypes l
+             | EUnit u ->
+                 let vars = List.filter (function DVar _ -> true | _ -> false) u.u_decls in
+                 let edges = List.filter (function DEdge _ -> true | _ -> false) u.u_decls in
+                 EUnit { u with u_decls = vars @ edges } in
+           let toks = render_lib2 (List.map reorder es) in
+           [ "rendered";
+             S.concat " " (List.filter_map (fun (t : token) ->
+               let k = kind_name t.t_kind in
+               if k = "Whitespace" || k = "Newline" || k = "Comment" then None
+               else Some (k ^ ":" ^ hex_of_text t.t_text)) toks) ]
+       | _ -> ["notparsed"])
+  | _ -> ["bad-args"]
+
 let ops : (str * (str list -> str list)) list ref =
   ref [ ("lex", op_lex); ("semtok", op_semtok); ("decode", op_decode); ("lit", op_lit); ("cycle", op_cycle);
-        ("lsp", op_lsp); ("cli", op_cli); ("rule", op_rule); ("expr", op_expr); ("scope", op_scope); ("stmts", op_stmts); ("strender", op_strender); ("rules", op_rules); ("latebound", op_latebound); ("fbd", op_fbd); ("fbdrender", op_fbdrender); ("lib", op_lib); ("lib2", op_lib2) ]
+        ("lsp", op_lsp); ("cli", op_cli); ("rule", op_rule); ("expr", op_expr); ("scope", op_scope); ("stmts", op_stmts); ("strender", op_strender); ("rules", op_rules); ("latebound", op_latebound); ("fbd", op_fbd); ("fbdrender", op_fbdrender); ("lib", op_lib); ("lib2", op_lib2); ("lib2render", op_lib2render) ]
 
 
 let () =
